@@ -106,6 +106,8 @@ enum Op {
 	Threads { s: usize, n: usize, m: usize, k: usize },
 	SymBorrow { s: usize },
 	Info { s: usize },
+	Debug { s: usize },
+	DebugPar { s: usize },
 }
 
 struct History {
@@ -364,6 +366,14 @@ fn parse_ops(
 				let a = args_n("info", a, 1)?;
 				Op::Info { s: slot(&a[0])? }
 			}
+			"debug" => {
+				let a = args_n("debug", a, 1)?;
+				Op::Debug { s: slot(&a[0])? }
+			}
+			"debugpar" => {
+				let a = args_n("debugpar", a, 1)?;
+				Op::DebugPar { s: slot(&a[0])? }
+			}
 			other => return Err(format!("unknown op {other}")),
 		});
 	}
@@ -613,6 +623,40 @@ struct Interp<'f, 'e> {
 struct Share {
 	round_trips: Vec<Result<(Vec<u8>, Val), String>>,
 	schema_info: Option<(usize, [u8; 8])>,
+	/// `{:?}` of the schema and the message of a serialization that fails (it renders a schema node)
+	renderings: Vec<String>,
+}
+
+/// `{:?}` of the schema
+fn render_debug(schema: &Schema) -> String {
+	format!("{schema:?}")
+}
+
+/// Message of a serialization that cannot succeed under any catalogue schema (a unit struct for a record / map root): the
+/// message renders the schema node it could not serialize to
+fn render_ser_error(schema: &Schema) -> String {
+	#[derive(serde_derive::Serialize)]
+	struct Mismatch;
+	match serde_avro_fast::to_datum_vec(&Mismatch, &mut SerializerConfig::new(schema)) {
+		Ok(b) => format!("ok {}", b.len()),
+		Err(e) => e.to_string(),
+	}
+}
+
+/// fmt::Write sink that, at its FIRST write, tells the other side it has been entered and waits for the go
+struct GateSink {
+	out: String,
+	gate: Option<(std::sync::mpsc::Sender<()>, std::sync::mpsc::Receiver<()>)>,
+}
+impl std::fmt::Write for GateSink {
+	fn write_str(&mut self, s: &str) -> std::fmt::Result {
+		if let Some((entered, go)) = self.gate.take() {
+			let _ = entered.send(());
+			let _ = go.recv();
+		}
+		self.out.push_str(s);
+		Ok(())
+	}
 }
 
 fn share_of(schema: &Schema, k: usize, t: usize, m: usize) -> Share {
@@ -642,6 +686,9 @@ fn share_of(schema: &Schema, k: usize, t: usize, m: usize) -> Share {
 	Share {
 		round_trips,
 		schema_info: (t % 2 == 1).then(|| (schema.json().len(), *schema.rabin_fingerprint())),
+		renderings: (0..m.max(1))
+			.map(|j| if (t + j) % 2 == 0 { render_debug(schema) } else { render_ser_error(schema) })
+			.collect(),
 	}
 }
 
@@ -1078,6 +1125,50 @@ impl<'f> Interp<'f, '_> {
 					schema.json().len(),
 					hex(schema.rabin_fingerprint())
 				)
+			}),
+			// `{:?}` of the frozen schema (cyclic or not): terminates, bounded output, the same text every time
+			Op::Debug { s } => self.with_schema(s, |schema| {
+				let a = render_debug(schema);
+				let b = render_debug(schema);
+				let e = render_ser_error(schema);
+				if a != b {
+					return "(debug UNSTABLE)".into();
+				}
+				format!("(debug {} {} x{:016x})", a.len(), e.len(), fnv1a64(a.as_bytes()) ^ fnv1a64(e.as_bytes()))
+			}),
+			// one thread is INSIDE a rendering of the schema (parked in its sink at the first write) while this thread renders the
+			// schema and produces a serialization error message: every text must be the one sequential use gives
+			Op::DebugPar { s } => self.with_schema(s, |schema| {
+				let seq_debug = render_debug(schema);
+				let seq_err = render_ser_error(schema);
+				let (entered_tx, entered_rx) = std::sync::mpsc::channel::<()>();
+				let (go_tx, go_rx) = std::sync::mpsc::channel::<()>();
+				let (parked, mid_debug, mid_err) = std::thread::scope(|scope| {
+					let h = scope.spawn(move || {
+						let mut sink = GateSink {
+							out: String::new(),
+							gate: Some((entered_tx, go_rx)),
+						};
+						let _ = std::fmt::Write::write_fmt(&mut sink, format_args!("{schema:?}"));
+						sink.out
+					});
+					let _ = entered_rx.recv();
+					let mid_debug = render_debug(schema);
+					let mid_err = render_ser_error(schema);
+					let _ = go_tx.send(());
+					(h.join().ok(), mid_debug, mid_err)
+				});
+				let after_debug = render_debug(schema);
+				if parked.as_deref() == Some(seq_debug.as_str())
+					&& mid_debug == seq_debug
+					&& mid_err == seq_err
+					&& after_debug == seq_debug
+				{
+					format!("(debugpar eq {})", seq_debug.len())
+				} else {
+					eprintln!("  debugpar: sequential {seq_debug:?} / {seq_err:?}\n  while another rendering is in flight {mid_debug:?} / {mid_err:?}\n  parked thread {parked:?}\n  afterwards {after_debug:?}");
+					"(debugpar DIFFERENT)".into()
+				}
 			}),
 		}
 	}
